@@ -902,16 +902,16 @@ var FieldWriteMap = `
 		{{- if Features.WithFieldMask}}
 		{{- $curFieldMask = "nfm"}}
 		{{- if $isIntKey}}
-		if {{if $isBaseVal}}_{{else}}{{$curFieldMask}}{{end}}, ex := {{.FieldMask}}.Int(int(k)); !ex {
+		if {{if $isBaseVal}}_{{else}}{{$curFieldMask}}{{end}}, ex := {{.FieldMask}}.Int(int(k)); !ex && !{{.FieldMask}}.All() {
 			continue
 		} else {
 		{{- else if $isStrKey}}
 		ks := string(k)
-		if {{if $isBaseVal}}_{{else}}{{$curFieldMask}}{{end}}, ex := {{.FieldMask}}.Str(ks); !ex {
+		if {{if $isBaseVal}}_{{else}}{{$curFieldMask}}{{end}}, ex := {{.FieldMask}}.Str(ks); !ex && !{{.FieldMask}}.All() {
 			continue
 		} else {
 		{{- else}}
-		if {{if $isBaseVal}}_{{else}}{{$curFieldMask}}{{end}}, ex := {{.FieldMask}}.Int(0); !ex {
+		if {{if $isBaseVal}}_{{else}}{{$curFieldMask}}{{end}}, ex := {{.FieldMask}}.Int(0); !ex && !{{.FieldMask}}.All() {
 			continue
 		} else {
 		{{- end}}
@@ -984,7 +984,7 @@ var FieldWriteSet = `
 		for {{if Features.WithFieldMask}}i{{else}}_{{end}}, v := range {{.Target}} {
 			{{- if Features.WithFieldMask}}
 			{{- $curFieldMask = "nfm"}}
-			if {{if $isBaseVal}}_{{else}}{{$curFieldMask}}{{end}}, ex := {{.FieldMask}}.Int(i); !ex {
+			if {{if $isBaseVal}}_{{else}}{{$curFieldMask}}{{end}}, ex := {{.FieldMask}}.Int(i); !ex && !{{.FieldMask}}.All() {
 				continue
 			} else {
 			{{- end}}
@@ -1035,7 +1035,7 @@ var FieldWriteList = `
 		for {{if Features.WithFieldMask}}i{{else}}_{{end}}, v := range {{.Target}} {
 			{{- if Features.WithFieldMask}}
 			{{- $curFieldMask = "nfm"}}
-			if {{if $isBaseVal}}_{{else}}{{$curFieldMask}}{{end}}, ex := {{.FieldMask}}.Int(i); !ex {
+			if {{if $isBaseVal}}_{{else}}{{$curFieldMask}}{{end}}, ex := {{.FieldMask}}.Int(i); !ex && !{{.FieldMask}}.All() {
 				continue
 			} else {
 			{{- end}}
